@@ -559,12 +559,29 @@ def coq_example_cases():
     exp13 = collections.OrderedDict([
         (b"v", {"occ": [[b"1"]], "idx": [1]}), (b"c", {"occ": [[b"C"]], "idx": [2]}),
         (b"a", {"occ": [[b"--foo", b"-v", b"--", b"sub"]], "idx": [3, 4, 5, 6]})])
+    # UnparseYExamples.v LEx (C02_lookahead_nonvacuous): a low-index multiple and allow_missing_positional
+    lc = {"name": b"p", "args": [arg(b"v", short="v", action="count"), arg(b"s", num=(1, None), flags={"required"}),
+                                 arg(b"d", flags={"required"})], "groups": [], "subs": [], "settings": [], "aliases": []}
+    toks14 = [b"-v", b"A", b"B", b"C"]
+    exp14 = collections.OrderedDict([(b"v", {"occ": [[b"1"]], "idx": [1]}), (b"s", {"occ": [[b"A", b"B"]], "idx": [2, 3]}),
+                                     (b"d", {"occ": [[b"C"]], "idx": [4]})])
+    toks15 = [b"A", b"B", b"C", b"-v"]
+    exp15 = collections.OrderedDict([(b"s", {"occ": [[b"A", b"B"]], "idx": [1, 2]}), (b"d", {"occ": [[b"C"]], "idx": [3]}),
+                                     (b"v", {"occ": [[b"1"]], "idx": [4]})])
+    ac = {"name": b"p", "args": [arg(b"v", short="v", action="count"), arg(b"f"), arg(b"s", flags={"required"})],
+          "groups": [], "subs": [], "settings": ["allow_missing_positional"], "aliases": []}
+    toks16 = [b"A", b"-v"]
+    exp16 = collections.OrderedDict([(b"s", {"occ": [[b"A"]], "idx": [1]}), (b"v", {"occ": [[b"1"]], "idx": [2]})])
+    toks17 = [b"-v", b"A", b"B"]
+    exp17 = collections.OrderedDict([(b"v", {"occ": [[b"1"]], "idx": [1]}), (b"f", {"occ": [[b"A"]], "idx": [2]}),
+                                     (b"s", {"occ": [[b"B"]], "idx": [3]})])
     out = []
     for c, toks, lv in ((one, toks1, [(exp1, None)]), (two, toks2, exp2), (one, toks3, [(exp3, None)]),
                         (order, toks4, [(exp4, None)]), (osc, toks5, [(exp5, None)]), (xc, toks6, exp6),
                         (xc1, toks7, [(exp7, None)]), (yc, toks8, [(exp8, None)]), (yc, toks9, [(exp9, None)]),
                         (tc, toks10, [(exp10, None)]), (hc, toks11, [(exp11, None)]), (hc, toks12, [(exp12, None)]),
-                        (mc, toks13, [(exp13, None)])):
+                        (mc, toks13, [(exp13, None)]), (lc, toks14, [(exp14, None)]), (lc, toks15, [(exp15, None)]),
+                        (ac, toks16, [(exp16, None)]), (ac, toks17, [(exp17, None)])):
         argv = [b"p"] + toks
         base = gen_cmd.cmd_sx(c)
         body = base[:-1] + " (x-expect %s %s))" % (guard(base, argv), expect_sx(lv))
